@@ -34,7 +34,7 @@ class IterSim(Sim):
               "zip_same_tensor", "list_during_live_iteration", "getitem_during_live_iteration", "abandoned_then_restarted", "exhausted_cursor_polled_again",
               "rank0_refuses_iteration", "empty_first_dim", "rows_in_backward", "unpack", "len_during_iteration", "iteration_of_op_result",
               "state_changed_between_iterations", "iteration_of_strided_view", "several_rows_held", "index_kind_bool", "index_kind_out_of_range", "index_kind_float",
-              "index_kind_slice_step", "index_kind_index_array", "index_array_reused", "iterator_passed_to_iter_again", "advanced_iterator_consumed_by_loop"]
+              "index_kind_slice_step", "index_kind_index_array", "index_kind_mask", "index_kind_int_list", "mask_key_on_tracked_tensor", "index_array_reused", "iterator_passed_to_iter_again", "advanced_iterator_consumed_by_loop"]
     RULE = ("one run = tensors plus a seeded interleaving of iter/next/drop on several cursors with nested for-loops, list/zip/unpack/len/index "
             "events; distinct = hash of (number of cursors, order of new/next/drop and loop events); non-trivial = two cursors over one tensor "
             "were live at once, or a nested loop over one tensor ran")
@@ -83,7 +83,14 @@ class IterSim(Sim):
         if r < 0.89:
             t = rng.choice(tids)
             n = st.T[t].data.shape[0] if st.T[t].data.ndim else 0
-            kind = rng.choice(["int", "int", "slice", "bool", "npint", "out_of_range", "float", "none", "ellipsis", "slice_step", "slice_step", "index_array", "index_array"])
+            kind = rng.choice(["int", "int", "slice", "bool", "npint", "out_of_range", "float", "none", "ellipsis", "slice_step", "slice_step", "index_array", "index_array",
+                               "mask", "mask", "int_list"])
+            if kind == "mask":
+                # a row mask: as a Python list or as a boolean array, of the right length or (must be refused) of another length
+                m = n if rng.random() < 0.7 else rng.choice([max(0, n - 1), n + 1, 1, n + 2])
+                return {"k": "getitem", "t": t, "kind": kind, "i": 0, "j": 0, "mask": [rng.random() < 0.5 for _ in range(m)], "as": rng.choice(["list", "array"])}
+            if kind == "int_list":
+                return {"k": "getitem", "t": t, "kind": kind, "i": 0, "j": 0, "vals": [rng.randrange(-n, n) if n else 0 for _ in range(rng.randint(0, 4))]}
             if kind == "slice_step":
                 lim = [None, None] + list(range(-n - 2, n + 3))
                 return {"k": "getitem", "t": t, "kind": kind, "i": 0, "j": 0, "key": [rng.choice(lim), rng.choice(lim), rng.choice([-1, -1, -2, -3, 2, 3, None])]}
@@ -389,7 +396,13 @@ class IterSim(Sim):
         if kind in ("int", "npint", "float", "slice"):
             i = max(-n, min(n - 1, i))
         kept_key = None
-        if kind == "slice_step":
+        if kind == "mask":
+            key = list(ev["mask"]) if ev.get("as") == "list" else np.array(ev["mask"], dtype=bool)
+            if t.requires_grad:
+                st.probes["mask_key_on_tracked_tensor"] += 1
+        elif kind == "int_list":
+            key = list(ev["vals"])
+        elif kind == "slice_step":
             key = slice(*ev["key"])
         elif kind == "index_array":
             if ev["kid"] not in st.keys:
@@ -420,6 +433,8 @@ class IterSim(Sim):
             want = t.data[key]
         except Exception:
             want = None
+        if kind in ("mask", "int_list") and isinstance(key, list) and len(key) == 0:
+            return                      # (an empty list as key: NumPy's own reading of it is version dependent)
         try:
             with quiet():
                 got = t[key]
